@@ -488,6 +488,18 @@ class C12(Check):
                 all_forms(t, "truncate-extend", ("bytes", "str") if bi < 3 else ("bytes",))
                 if ln >= 5:
                     all_forms(with_checksum(t[:-4]), "truncate-extend-rechecksum", ("bytes", "dec") if bi < 3 else ("bytes",))
+            # bytes INSERTED (not replaced) with the checksum recomputed over the longer body: after the tag (the tag re-spelt as
+            # a longer varint: t|0x80 00, t|0x80 80 00), between and inside the keys, before the payment id, before the checksum
+            body = b[:-4]
+            spots = sorted(set([0, 1, 2, 16, 32, 33, 34, 64, 65, 66, len(body) - 8, len(body) - 1, len(body)]))
+            for i in spots:
+                if not 0 <= i <= len(body):
+                    continue
+                for ins in (b"\x00", b"\x80", b"\x80\x00", b"\x01", b"\xff"):
+                    all_forms(with_checksum(body[:i] + ins + body[i:]), "byte-insertion-rechecksum", ("bytes", "str", "dec") if bi < 3 else ("bytes", "str"))
+            for sp in (bytes([body[0] | 0x80, 0x00]), bytes([body[0] | 0x80, 0x80, 0x00]), bytes([body[0] | 0x80, 0x80, 0x80, 0x00]),
+                       bytes([body[0] | 0x80, 0x01]), bytes([body[0], 0x00])):
+                all_forms(with_checksum(sp + body[1:]), "tag-respelt-as-longer-varint", ("bytes", "str", "dec"))
             for ext in range(1, 17):
                 e = b + bytes(rng.getrandbits(8) for _ in range(ext))
                 all_forms(e, "extend", ("bytes", "str", "hex", "dec") if bi < 3 else ("bytes", "str", "dec"))
